@@ -280,7 +280,8 @@ func (p *Prog) retSummary(g *ssa.Function) []retFact {
 				for _, alt := range phiAlternatives(r.Results[i], 3) {
 					l := fa.Lin(alt)
 					gl := goal(l)
-					if !Entails(fa.FactsAt(r, gl), gl) {
+					facts := fa.FactsAt(r, gl)
+					if !Entails(facts, gl) && !fa.entailsPhiSplit(r, facts, gl, linConst(0), 2) {
 						return false
 					}
 				}
